@@ -31,12 +31,17 @@ ASSUMPTIONS = [
 ]
 WALL = {"quick": 900, "thorough": 5400}
 PROBE = "== H ==\n* a\n** b ''i'' '''b'''\n{|\n|-\n| c || d\n|}\n<div class=\"x\">[[l|t]] {{ta|1}} [http://x y]</div>\n text\n; t : d\n"
-MODES = [{}, {"pre_expand": True}, {"expand_all": True}]
+MODES = [{}, {"pre_expand": True}, {"expand_all": True},
+         # hooks that use the SAME context re-entrantly while the outer call is expanding (what extraction code does
+         # in its template hooks): "reenter" is replaced by real hook functions in Monitor.kwargs()
+         {"expand_all": True, "reenter": "template_fn"}, {"expand_all": True, "reenter": "post_template_fn"},
+         {"pre_expand": True, "reenter": "template_fn"}]
 
 
 def floors(tier):
     return {"oracle.parse.post": 1000, "oracle.walker": 1000, "counters.gen.G1": 1, "counters.gen.G3": 1,
-            "counters.gen.G4": 1, "counters.gen.G2": 1, "counters.gen.G5": 1, "sets.handlers": 20}
+            "counters.gen.G4": 1, "counters.gen.G2": 1, "counters.gen.G5": 1, "sets.handlers": 20,
+            "counters.reentrant-hook-calls": 200}
 
 
 def shards(tier, seed):
@@ -160,17 +165,39 @@ class Monitor:
         anchors.watch({"parser._parser_pop": P._parser_pop, "parser._parser_merge_str_children": P._parser_merge_str_children,
                        "parser.parse_encoded": P.parse_encoded})
         self.ctx.start_page("Pg")
-        self.base = [canon(self.ctx.parse(PROBE, **m)) for m in MODES]
+        self.base = [canon(self.ctx.parse(PROBE, **self.kwargs(i))) for i in range(len(MODES))]
         contracts.drain()
         self.stats = {"kinds": {}, "maxdepth": 0}
 
     def close(self):
         self.cm.__exit__(None, None, None)
 
+    def kwargs(self, mode):
+        kw = dict(MODES[mode])
+        which = kw.pop("reenter", None)
+        if which is None:
+            return kw
+        ctx, obs = self.ctx, self.obs
+
+        def reenter(name, args, *rest):
+            # parse / expand / serialise the arguments on the same context; the hook itself changes nothing (None)
+            obs.count("reentrant-hook-calls")
+            for v in list(args.values())[:2] + list(rest):
+                if isinstance(v, str) and v:
+                    try:
+                        sub = ctx.parse(v)
+                        ctx.node_to_wikitext(sub)
+                        ctx.expand(v)
+                    except RecursionError:
+                        pass
+            return None
+        kw[which] = reenter
+        return kw
+
     def problems(self, text, mode):
         """Run one case on the real parser; returns list of (sig, msg)."""
         ctx = self.ctx
-        kw = MODES[mode]
+        kw = self.kwargs(mode)
         has_ph = bool(PLACEHOLDER_RE.search(text))
         tag = "/placeholder-char-in-input" if has_ph else ""
         out = []
@@ -199,7 +226,7 @@ class Monitor:
         """No state left behind: the fixed probe document parses to its baseline tree."""
         self.obs.check("state-probe")
         try:
-            got = canon(self.ctx.parse(PROBE, **MODES[mode]))
+            got = canon(self.ctx.parse(PROBE, **self.kwargs(mode)))
         except Exception as e:
             return [("state-probe-raises:" + exc_sig(e), repr(e)[:200])]
         finally:
@@ -256,7 +283,7 @@ def run_shard(spec):
     overruns = 0
     for i in range(n):
         r = i % 10
-        mode = rng.randrange(3)
+        mode = rng.randrange(3) if rng.random() < 0.75 else rng.randrange(3, len(MODES))
         if r < 5:
             text, _ = soup.soup(rng, 60, placeholders=(rng.random() < 0.06))
             gen = "G1"
